@@ -250,7 +250,7 @@ class Engine:
             ctx['new_points'] = newpts
             ctx['dup_points'] = (len(set(newpts)) != len(newpts)) or bool(st.evald & frozenset(newpts))
             terminal = (ret is not None and bool(ret)) and kind in ('step', 'run2', 'finish', 'raise', 'tick', 'cap',
-                                                  'runarg', 'sched')
+                                                  'runarg', 'sched', 'runto')
             new = self.capture(post, st, action, terminal=terminal, evald=evald, target=target,
                                parent_explored=bool(pre.explored))
         ctx['new'] = new
@@ -300,6 +300,12 @@ class Engine:
             target = (action[1], action[2])
             A = scn.run_args(n_eff=target[0], n_shell=target[1])
             return s.run(**A, n_like_max=s.n_like + 1), s, target
+        if kind == 'runto':
+            # run to completion with raised targets (many batches of the sampling phase, including
+            # batches drawn from early shells when n_shell asks for it)
+            target = (action[1], action[2])
+            A = scn.run_args(n_eff=target[0], n_shell=target[1])
+            return s.run(**A), s, target
         if kind == 'observe':
             return observe(s, scn), s, target
         raise ValueError(action)
@@ -317,7 +323,10 @@ def observe(s, scn):
             out.append(s.eta)
             out.append(s.asymptotic_sampling_efficiency())
         out.append(s.f_live)
-        out.append(s.log_v_live)
+        if not s.explored:
+            # "live" quantities are only defined while exploring (f_live is None afterwards; log_v_live
+            # is an internal input of add_bound and is not among the accessors C11 names)
+            out.append(s.log_v_live)
         out.append(s.evidence())
         out.append(s.effective_sample_size())
         out.append(bool(s.discard_exploration))
